@@ -519,15 +519,15 @@ def semHandle (st : DState) (ws : List String) : Option String :=
     -- C17: generate a canonical value of container `key`, encode it, walk it with dissector program `name`
     match st.wsprogs.get? name, st.corpus.get? key, seed.toNat?, maxLen.toNat?, sample.toNat?, ver.toNat? with
     | some p, some (_, c), some seed, some maxLen, some sample, some ver =>
-      match Sem.firstPrim c with
-      | some w => some s!"unsupported {w}"
-      | none =>
-        if !Sem.wfMs c then some "notwf" else
-        match Sem.genContainer c seed maxLen sample with
-        | none => some "genfail"
-        | some vs => match Sem.encode c vs, Wireshark.trMembers c [] vs with
-          | some b, some (tr, _) => some s!"{WsParse.compare { s2c := s2c == "1", version := ver } p tr b} hex={if b.isEmpty then "-" else hexOf b}"
-          | _, _ => some "encfail"
+      -- containers with built-in types outside the generic semantics are walked on the values whose taken branches avoid them
+      -- (a value that reaches such a type cannot be generated / encoded: `unsupported`)
+      let prim := Sem.firstPrim c
+      if prim.isNone && !Sem.wfMs c then some "notwf" else
+      match Sem.genContainer c seed maxLen sample with
+      | none => some (match prim with | some w => s!"unsupported {w}" | none => "genfail")
+      | some vs => match Sem.encode c vs, Wireshark.trMembers c [] vs with
+        | some b, some (tr, _) => some s!"{WsParse.compare { s2c := s2c == "1", version := ver } p tr b} hex={if b.isEmpty then "-" else hexOf b}"
+        | _, _ => some (match prim with | some w => s!"unsupported {w}" | none => "encfail")
     | none, _, _, _, _, _ => some "nows"
     | _, none, _, _, _, _ => some "nokey"
     | _, _, _, _, _, _ => some "bad-op"
@@ -535,14 +535,11 @@ def semHandle (st : DState) (ws : List String) : Option String :=
     -- the same on given bytes (test vectors, replays): the specification trace comes from decoding them
     match st.wsprogs.get? name, st.corpus.get? key, unhex hex, ver.toNat? with
     | some p, some (_, c), some bs, some ver =>
-      match Sem.firstPrim c with
-      | some w => some s!"unsupported {w}"
-      | none =>
-        match Sem.decode c bs with
-        | .error e => some s!"specerr {showErr e}"
-        | .ok vs => match Wireshark.trMembers c [] vs with
-          | some (tr, _) => some (WsParse.compare { s2c := s2c == "1", version := ver } p tr bs)
-          | none => some "tracefail"
+      match Sem.decode c bs with
+      | .error e => some s!"specerr {showErr e}"
+      | .ok vs => match Wireshark.trMembers c [] vs with
+        | some (tr, _) => some (WsParse.compare { s2c := s2c == "1", version := ver } p tr bs)
+        | none => some "tracefail"
     | none, _, _, _ => some "nows"
     | _, none, _, _ => some "nokey"
     | _, _, _, _ => some "bad-op"
